@@ -18,7 +18,7 @@ from ..algebra_lin import linear_form
 
 FILESET = "typhon/files/fileset.py"
 HCOMMON = "typhon/files/handlers/common.py"
-EXPECT = {"C02.table": 19, "C02.year2": 1, "C02.doy": 2, "C02.subsec": 2, "C02.endfill": 4, "C02.default_end": 3, "C02.merge": 4, "C02.reject": 4, "C02.memo": 1}
+EXPECT = {"C02.table": 20, "C02.year2": 1, "C02.doy": 4, "C02.subsec": 2, "C02.endfill": 4, "C02.default_end": 3, "C02.merge": 4, "C02.reject": 4, "C02.memo": 1}
 
 DOCUMENTED = ["year", "year2", "month", "day", "doy", "hour", "minute", "second", "millisecond"]
 FIELD = {"year": "year", "month": "month", "day": "day", "hour": "hour", "minute": "minute", "second": "second"}
@@ -220,7 +220,10 @@ def rule_doy_subsec(ctx):
             d, td = v.left, v.right
             if dotted(getattr(td, "func", None)) != "timedelta":
                 d, td = td, d
-            okd = isinstance(d, ast.Call) and dotted(d.func) == "datetime" and [norm(x).replace('"', "'") for x in d.args] == ["%s['year']" % a, "1", "1"]
+            gflow_ = Flow(g)
+            yarg = str(norm(gflow_.resolve(d.args[0], at=rd, depth=2, stop=(a,)))).replace('"', "'") if isinstance(d, ast.Call) and d.args else None
+            year_ok = yarg is not None and (yarg == "%s['year']" % a or yarg.startswith("%s.get('year'," % a))
+            okd = isinstance(d, ast.Call) and dotted(d.func) == "datetime" and year_ok and [norm(x) for x in d.args[1:]] == ["1", "1"]
             try:
                 targ = td.args[0] if td.args else next((k.value for k in td.keywords if k.arg == "days"), None)
                 lf = linear_form(targ, {"doy": "D"}, consts=True) if targ is not None else None
@@ -228,6 +231,39 @@ def rule_doy_subsec(ctx):
                 lf = None
             ok = okd and lf == {"D": 1, 1: -1}
     ctx.ob("FileSet._standardise_datetime_args.doy", ok, "date = %s" % fact, "datetime(year, 1, 1) + timedelta(doy - 1), then month/day taken from it", node=rd or g.node, func=g)
+    # a day of year that does not exist in its year is rejected like an impossible month/day (datetime() does that for month/day)
+    rng = []
+    if rd is not None:
+        dn = rd.targets[0].id if isinstance(rd.targets[0], ast.Name) else None
+        for st in walk_no_nested(g.node):
+            if isinstance(st, ast.If) and any(isinstance(x, ast.Raise) and x.exc is not None and "ValueError" in norm(x.exc) for x in st.body) \
+                    and dn is not None and ("%s.year" % dn) in str(norm(st.test)) and any(isinstance(c_, ast.Compare) and isinstance(c_.ops[0], ast.NotEq) for c_ in ast.walk(st.test)):
+                rng.append(st)
+    ctx.ob("FileSet._standardise_datetime_args.doy_range", bool(rng), "range checks on the day of year: %s" % ([str(norm(r_.test))[:70] for r_ in rng] or "none"),
+           "ValueError when datetime(year, 1, 1) + (doy - 1) days leaves the year (name '2017366' was parsed as 2018-01-01)",
+           node=rng[0] if rng else (rd or g.node), func=g, witness=None if rng else {"name": "2017366", "template": "{year}{doy}", "parsed as": "2018-01-01"})
+    # the end's day of year is converted with the START's year when the end has none of its own
+    t_ = ctx.func(FILESET, "FileSet._to_datetime_args")
+    tflow = Flow(t_)
+    ecalls = [c_ for c_ in calls_in(t_.node, "_standardise_datetime_args")]
+    end_ok = None
+    for c_ in ecalls:
+        a0 = tflow.resolve(c_.args[0], at=c_, depth=1) if c_.args else None
+        txt0 = str(norm(c_.args[0])) if c_.args else ""
+        if "end" not in txt0:
+            continue
+        kws_ = {k_.arg: str(norm(k_.value)).replace('"', "'") for k_ in c_.keywords}
+        pos_ = [str(norm(x_)).replace('"', "'") for x_ in c_.args[1:]]
+        given = list(kws_.values()) + pos_
+        end_ok = any(".get('year')" in v_ or "['year']" in v_ for v_ in given) and any("start" in v_ for v_ in given)
+        if not end_ok and isinstance(a0, ast.Dict) and any(k_ is None and "start" in str(norm(v_)) for k_, v_ in zip(a0.keys, a0.values)):
+            end_ok = True       # the end arguments are merged over the start arguments before they are standardised
+        end_call = c_
+    if end_ok is None:
+        raise AnalysisError("_to_datetime_args: the standardisation of the end arguments was not found")
+    ctx.ob("FileSet._to_datetime_args.end_year", end_ok, "%s" % str(norm(end_call))[:110],
+           "the end arguments are standardised with the start's year as default: {end_doy} without {end_year} is a day of the start's year (KeyError: 'year' before)",
+           node=end_call, func=t_, witness=None if end_ok else {"template": "{year}{doy}_{hour}{minute}-{end_doy}_{end_hour}{end_minute}", "raises": "KeyError: 'year'"})
     ctx.rule("C02.subsec", "T5", "sub-second fields: millisecond writer scale x reader scale = 1; reader weights 10^5, 10^4, 10^3, 1")
     ms = kws.get("millisecond")
     fw = _fmt_width(ms) if ms is not None else None
@@ -653,6 +689,35 @@ def rule_memo(ctx, rule="C02.memo"):
 
 def rule_regexfill(ctx):
     ctx.rule("C02.table", "T6", "_fill_placeholders: repetitions of a placeholder are replaced behind its first occurrence, located in the string as it is NOW")
+    # what a repetition is replaced by: the regex of the placeholder without its named group - but still ONE group (a list of values is
+    # an alternation a|b: bare, it would split the whole anchored path regex into two alternatives)
+    rg = ctx.func(FILESET, "FileSet._remove_group_capturing")
+    rets_g = [r_ for r_ in walk_no_nested(rg.node) if isinstance(r_, ast.Return) and r_.value is not None]
+    stripped = [r_ for r_ in rets_g if any(isinstance(n_, ast.Subscript) and isinstance(n_.slice, ast.Slice) for n_ in ast.walk(r_.value))]
+    if not stripped:
+        raise AnalysisError("_remove_group_capturing: the return of the stripped regex was not found")
+
+    def grouped(e):
+        """e is '(?:' + <something> + ')'  (or an f-string / format of that shape)"""
+        parts = []
+
+        def flat(n_):
+            if isinstance(n_, ast.BinOp) and isinstance(n_.op, ast.Add):
+                flat(n_.left)
+                flat(n_.right)
+            else:
+                parts.append(n_)
+        if isinstance(e, ast.JoinedStr):
+            parts.extend(e.values)
+        else:
+            flat(e)
+        first, last = parts[0], parts[-1]
+        return isinstance(first, ast.Constant) and str(first.value).startswith("(?:") and isinstance(last, ast.Constant) and str(last.value).endswith(")") and len(parts) >= 3
+    okg = all(grouped(r_.value) for r_ in stripped)
+    ctx.ob("FileSet._remove_group_capturing.grouped", okg, "%s" % [str(norm(r_.value))[:70] for r_ in stripped],
+           "'(?:' + <regex without the named group> + ')': the repetition of a placeholder with a value list stays one alternative of the path regex",
+           node=stripped[0], func=rg, witness=None if okg else {"template": "/data/{sat}/{year}{month}{day}_{sat}.nc", "placeholder": {"sat": ["noaa18", "metopa"]},
+                                                              "regex": "^/data/(?P<sat>noaa18|metopa)/..._noaa18|metopa\\.nc$"})
     f = ctx.func(FILESET, "FileSet._fill_placeholders")
     flow = Flow(f)
     pth = f.params[1]
